@@ -1,9 +1,10 @@
 // C02: a scheduled job runs exactly once, whoever starts it.
 // Monitors over the real advanced scheduler:
-//  (a) per-job trace rules over recorded API results, job-function invocations and hook observations
-//      (branch taken, goroutine exit), under boundary stress and under forced orders executed at hook points;
-//  (b) periodic jobs: in-flight counter, ticking after early runs;
-//  (c) linearizability of the job table (porcupine) over concurrent schedule/run/cancel/exists with name reuse.
+//
+//	(a) per-job trace rules over recorded API results, job-function invocations and hook observations
+//	    (branch taken, goroutine exit), under boundary stress and under forced orders executed at hook points;
+//	(b) periodic jobs: in-flight counter, ticking after early runs;
+//	(c) linearizability of the job table (porcupine) over concurrent schedule/run/cancel/exists with name reuse.
 package main
 
 import (
@@ -19,10 +20,10 @@ import (
 	"time"
 
 	"github.com/anishathalye/porcupine"
-	"github.com/petermattis/goid"
 	nullmetrics "github.com/attestantio/vouch/services/metrics/null"
 	"github.com/attestantio/vouch/services/scheduler"
 	"github.com/attestantio/vouch/services/scheduler/advanced"
+	"github.com/petermattis/goid"
 	"github.com/rs/zerolog"
 	"verif/harness"
 )
@@ -38,14 +39,14 @@ type jobState struct {
 	exited atomic.Bool
 	forced map[string]func(js *jobState)
 
-	runNil     atomic.Int32
-	runErr     []string
-	cancelNil  atomic.Int32
-	cancelErr  []string
-	ctxCancel  atomic.Bool
-	ctxClearly bool
+	runNil        atomic.Int32
+	runErr        []string
+	cancelNil     atomic.Int32
+	cancelErr     []string
+	ctxCancel     atomic.Bool
+	ctxClearly    bool
 	cancelClearly bool
-	notes      []string
+	notes         []string
 }
 
 func (js *jobState) note(s string) { js.mu.Lock(); js.notes = append(js.notes, s); js.mu.Unlock() }
